@@ -116,7 +116,8 @@ FastRational gcd(FastRational const & a, FastRational const & b)
 {
     assert(a.isInteger() and b.isInteger());
     if (a.wordPartValid() && b.wordPartValid()) {
-        return FastRational(gcd(a.num, b.num));
+        // non-negative, as mpz_gcd in the other branch
+        return FastRational(gcd<uword>(absVal(a.num), absVal(b.num)));
     }
     else {
         a.ensure_mpq_valid();
@@ -130,7 +131,8 @@ FastRational lcm(FastRational const & a, FastRational const & b)
 {
     assert(a.isInteger() and b.isInteger());
     if (a.wordPartValid() && b.wordPartValid()) {
-        return lcm(a.num, b.num);
+        // non-negative, as mpz_lcm in the other branch
+        return lcm<uword>(absVal(a.num), absVal(b.num));
     }
     else {
         a.ensure_mpq_valid();
